@@ -24,3 +24,30 @@ SPECS["C07"] = {
     "outside": "declared lengths above 9",
     "assumptions": ["StandardDataDictionary::indexed_tag stubbed to 'unknown attribute' (only used for the pixel-padding VR fix-up)", "tracing macros stubbed to disabled"],
 }
+
+SPECS["C15"] = {
+    "parts": [{"engine": "m", "module": "c15"}],
+    "bounds": "none: all 2^32 tags (one symbolic 32-bit tag), every table entry for the keyword side",
+    "outside": "the SOP class / UID dictionary (same construction, not encoded)",
+    "assumptions": ["contracts: HashMap::{insert,get} / HashSet::{insert,contains} as finite maps, once_cell::Lazy = value of its initialiser, "
+                    "Option::{or_else,cloned}, RangeInclusive::contains", "nightly MIR (debug-assertions off, overflow-checks on) stands for the shipped code; "
+                    "tied back by native cross-checks of one solver-chosen tag per path"],
+}
+
+SPECS["C17"] = {
+    "parts": [{"engine": "m", "module": "c17"}],
+    "bounds": "5 components, presence symbolic (all 32 combinations), component text of length 1-3 with symbolic printable ASCII bytes "
+              "satisfying the precondition (no ^ = \\, no leading/trailing white space); quick: 4 length tuples, thorough: all 243",
+    "outside": "components longer than 3 bytes; non-ASCII text; ideographic/phonetic groups",
+    "assumptions": ["contracts: String::{new,push,push_str}, slice::iter, Iterator::{rev,peekable,next}, Peekable::{peek,next_if,next_back}, "
+                    "Option::{is_some,is_none,and_then}, str::{trim,split::<char>,is_empty}, Split::next, Cow deref/into"],
+}
+
+SPECS["C36"] = {
+    "parts": [{"engine": "m", "module": "c36"}],
+    "bounds": "title 1-3 (thorough 1-4) symbolic non-NUL ASCII bytes without '@' (the statement's precondition), address 1-3 (1-4) symbolic "
+              "non-NUL ASCII bytes that MAY contain '@'; FullAeAddr, AeAddr with and without title; T = String",
+    "outside": "T = SocketAddr (std's own print/parse composed with the same generic code); longer strings; non-ASCII",
+    "assumptions": ["contracts: str::{split_once::<char>,replace::<char>,contains::<char>,parse::<String>,to_string}, Option::{filter,map}, "
+                    "Formatter::write_str, <String as Display>::fmt, Try/FromResidual/ResultExt::context"],
+}
